@@ -182,4 +182,42 @@ Section Oracle.
       as [_ [A B]]; auto; try (left; reflexivity).
     destruct D; congruence.
   Qed.
+
+  (* ---------------------------------------------------------------- mode bits are irrelevant:
+     symlink / directory / irregular mode bits in the header change nothing; whatever Unzip
+     creates is created as a regular file (or a directory by MkdirAll) *)
+  Definition rekind (g : entry -> kind) (e : entry) : entry :=
+    mkEntry (e_name e) (e_declared e) (g e) (e_data e) (e_crc_ok e) (e_open_ok e) (e_deflate e).
+
+  Lemma cz_loop_rekind : forall g es st,
+    cz_loop is_letter fold_min st (map (rekind g) es) = cz_loop is_letter fold_min st es.
+  Proof.
+    induction es as [|e es IH]; intros st; cbn [map Model.cz_loop]; auto.
+    change (cz_step is_letter fold_min st (rekind g e)) with (cz_step is_letter fold_min st e).
+    destruct (cz_step is_letter fold_min st e) as [v s1]. rewrite IH. reflexivity.
+  Qed.
+
+  Lemma unzip_entries_rekind : forall g dir es fs,
+    unzip_entries dir fs (map (rekind g) es) = unzip_entries dir fs es.
+  Proof.
+    induction es as [|e es IH]; intros fs; cbn [map unzip_entries]; auto.
+    cbn [rekind e_name e_open_ok e_declared].
+    change (zip_read (rekind g e)) with (zip_read e).
+    destruct (e_name e); auto. destruct (ends_with_slash (n :: s)); auto.
+    destruct (mkdir_all fs (removelast (join_path dir (n :: s)))); auto.
+    destruct (e_open_ok e); cbn [negb]; auto.
+    destruct (zip_read e) as [dl rerr]. destruct (limited_copy (to_int64 (e_declared e)) dl rerr) as [w err].
+    destruct (create_excl f (join_path dir (n :: s)) w); auto. destruct err; auto.
+  Qed.
+
+  Theorem unzip_ignores_mode_bits : forall g dir fs zs es,
+    unzip is_letter fold_min dir fs zs (map (rekind g) es) = unzip is_letter fold_min dir fs zs es.
+  Proof.
+    intros. unfold unzip, Model.check_zip, check_zip_verdicts.
+    rewrite cz_loop_rekind, map_map.
+    replace (map (fun x => e_name (rekind g x)) es) with (map e_name es) by (apply map_ext; reflexivity).
+    destruct (dir_nonempty fs dir); auto.
+    match goal with |- (if ?c then _ else _) = _ => destruct c end; auto.
+    destruct (mkdir_all fs dir); auto. apply unzip_entries_rekind.
+  Qed.
 End Oracle.
